@@ -31,7 +31,8 @@ def gen_design(r, features=("cname", "attr", "param", "names", "latch", "conn", 
         if "undeclared" in features and r.random() < 0.25:
             m["declared"] = False
         models.append(m)
-    weird = ["$abc$%d$n", "n%d.x", "net%d", "w%d", "$auto$blif.cc:5:p$%d.A", "sig%d"]
+    weird = ["$abc$%d$n", "n%d.x", "net%d", "w%d", "$auto$blif.cc:5:p$%d.A", "sig%d", "st%d[1].sum", "$0\\leds%d[15:0].q", "g[%d].u"]
+    bus_bases = ["b", "b", "stage[1].sum", "$0\\leds[15:0]", "arr[2].d"]
     nets = []       # available driven net bits
     inputs = []
     for k in range(r.randint(1, 4)):
@@ -50,7 +51,7 @@ def gen_design(r, features=("cname", "attr", "param", "names", "latch", "conn", 
 
     def new_out():
         if "bus" in features and r.random() < 0.25:
-            nm = fresh("b")
+            nm = fresh(r.choice(bus_bases))
             return [(nm, b) for b in range(r.randint(2, 3))]
         return [((r.choice(weird) % uid[0]) + fresh("_"), None)]
     pending_bus = []
